@@ -25,6 +25,7 @@ import numpy as np
 import cirq
 
 from engines.qref import QRef, merge_by_records, Unsupported
+from engines.scripted_prng import UnmodelledSeedReuse
 from engines.scripted_prng import ScriptedPRNG, explore, TreeTooLarge, NondeterministicReplay
 from simkit.core import HarnessError, Violation
 
@@ -122,7 +123,8 @@ def _last_instance_key(merged_key, channel=False):
 
 
 def check_run(P: str, circuit, cfg: SimConfig, reps: int, ctx, max_leaves: int,
-              entry: str = "run", channel_keys=(), ref_circuit=None, param_resolver=None, stats=None) -> int:
+              entry: str = "run", channel_keys=(), ref_circuit=None, param_resolver=None, stats=None,
+              int_seed=None) -> int:
     """Entry points run / run_sweep / sample: the joint distribution of Result.records."""
     qubits = sorted(circuit.all_qubits())
     ref_c = ref_circuit if ref_circuit is not None else circuit
@@ -143,19 +145,30 @@ def check_run(P: str, circuit, cfg: SimConfig, reps: int, ctx, max_leaves: int,
             p_last[kk] = p_last.get(kk, 0.0) + v
         p_ref = p_last
 
-    def leaf(prng: ScriptedPRNG):
+    def leaf_with(seed):
         if entry == "sample":
-            return cirq.sample(circuit, repetitions=reps, dtype=cfg.dtype, seed=prng, noise=cfg.noise,
+            return cirq.sample(circuit, repetitions=reps, dtype=cfg.dtype, seed=seed, noise=cfg.noise,
                                param_resolver=param_resolver)
-        sim = cfg.make(prng)
+        sim = cfg.make(seed)
         if entry == "run_sweep":
             return sim.run_sweep(circuit, params=param_resolver or cirq.ParamResolver({}), repetitions=reps)[0]
         return sim.run(circuit, param_resolver=param_resolver, repetitions=reps)
+
+    def leaf(prng: ScriptedPRNG):
+        if int_seed is None:
+            return leaf_with(prng)
+        # the seed given as an integer: one pseudo-random stream, however often the library re-parses it
+        from engines.scripted_prng import int_seeds_scripted
+        with int_seeds_scripted(prng):
+            return leaf_with(int_seed)
 
     try:
         leaves = explore(leaf, max_leaves)
     except TreeTooLarge:
         ctx.probe("tree-too-large")
+        return 0
+    except UnmodelledSeedReuse:
+        ctx.probe("int-seed:unmodelled-reuse")
         return 0
     tol = cfg.tol()
     _count_draws(leaves, stats, ctx)
